@@ -9,7 +9,7 @@ from ..common import Result
 ID = "C12"
 LEVEL = "exploration"
 WORLDS = [(1, "plain"), (3, "plain"), (8, "plain")]
-BUDGET = {"quick": dict(cases=900, fuzz_s=8), "thorough": dict(cases=20000, fuzz_s=90)}
+BUDGET = {"quick": dict(cases=900, fuzz_s=90, fuzz_runs=6000), "thorough": dict(cases=20000, fuzz_s=90)}
 MIN_NONTRIVIAL = {"quick": 2000, "thorough": 30000}
 BLOB = (300, 1300)
 RULE = ("Generated (Hypothesis): tables of 1-8 commands (all handler subsets, variables of all types with callbacks that may fail, multi-step return-code "
@@ -205,7 +205,7 @@ def prebuild(tier):
 
 def campaign(tier, seed, nworkers):
     """coverage-guided search over (descriptor, input bytes, schedule bytes) with the eager-vs-scheduled differential inside the target"""
-    return fuzz.campaign(ID, "c12", (1,), BUDGET[tier]["fuzz_s"], seed, nworkers, max_len=800)
+    return fuzz.campaign(ID, "c12", (1,), BUDGET[tier]["fuzz_s"], seed, nworkers, max_len=800, runs=BUDGET[tier].get("fuzz_runs"))
 
 
 replay_artifact = fuzz.replay_artifact
